@@ -509,7 +509,7 @@ func runC07(args []string) error {
 			"admit: a funded sender's transaction valid or made invalid in 1-2 chosen respects (system fee cap, script, expiry, not yet valid, blocked signer, size, fee below size*feePerByte+attribute fees, already on chain, named as conflict on chain, wrong signature, wrong witness script, attribute rules, balance, duplicate, pool conflict); "+
 			"wstate: a transaction co-signed by a non-standard verification script (Ledger.currentIndex < or >= N, GAS.balanceOf(X) < v, constant true) or a deployed contract's verify method, submitted, then 1-4 blocks that flip the witness or not; "+
 			"chist: 1-3 on-chain transactions naming the same hash in Conflicts, co-signed by the later submitter and/or a stranger, in blocks up to MaxTraceableBlocks+2 apart on a chain with MaxTraceableBlocks 6..12, then the named transaction submitted 0..MaxTraceableBlocks+1 blocks later; "+
-			"pack: pools of 6-30 transactions under small MaxTransactionsPerBlock/MaxBlockSize/MaxBlockSystemFee, with and without StateRootInHeader; "+
+			"pack: 256-265 equal tiny transactions with MaxBlockSize within 2 bytes of the block of the first 252/253/254 (var-uint boundary of the count); pools of 6-30 transactions under small MaxTransactionsPerBlock/MaxBlockSize/MaxBlockSystemFee, with and without StateRootInHeader; "+
 			"non-trivial: multi-signature shape / any boundary / any admit case with a defect / a pack where a limit cut the set; distinct by Coq term")
 	co.shard = 60
 	if cf.replay != "" {
@@ -593,6 +593,14 @@ func runC07(args []string) error {
 	// on-chain conflict records over time
 	for i := 0; i < cf.n/5; i++ {
 		c07Dispatch(co, "chist", enc(c07GenHist(r)))
+	}
+	// pack: the var-uint boundary of the transaction count
+	nmany := 5
+	if thorough {
+		nmany = 30
+	}
+	for i := 0; i < nmany; i++ {
+		c07Dispatch(co, "pack", enc(c07GenPackMany(r)))
 	}
 	// pack
 	for i := 0; i < cf.n/10; i++ {
